@@ -75,9 +75,13 @@ JudgeMake(e, i) ==
         \* (class template argument deduction has no guide for constants in this version of the library: only the
         \* value clause is judged for it)
         shapeOK == CASE i.op \in {"make_elastic_integer_c", "make_static_integer_c"} ->
-                          HasKind(rs, "elastic") /\ (rs.digits = ud \/ (IsZero(v) /\ rs.digits <= 1))
-                     [] i.op \in {"make_elastic_scaled_integer_c", "make_static_number_c"} ->
-                          rs.k = "scaled" /\ ex = tz /\ (rs.digits = ud - tz \/ (IsZero(v) /\ rs.digits <= 1))
+                          HasKind(rs, "elastic") /\ rs.digits = ud
+                     \* make_elastic_scaled_integer(constant<0>) deliberately clamps the digit count to 1 (std::max in its
+                     \* declared return type; same storage): accepted for that factory only -- zero has no used digits
+                     [] i.op = "make_elastic_scaled_integer_c" ->
+                          rs.k = "scaled" /\ ex = tz /\ (rs.digits = ud - tz \/ (IsZero(v) /\ rs.digits = 1))
+                     [] i.op = "make_static_number_c" ->
+                          rs.k = "scaled" /\ ex = tz /\ rs.digits = ud - tz
                      [] OTHER -> TRUE
         \* -2^k: the value whose used-digit count k gives a symmetric elastic range that excludes it (known finding)
         negPow2 == v.n /\ BitLen(Abs(v)) - 1 = TrailingZeros(Abs(v))
